@@ -54,7 +54,12 @@ PREMISES = {
              'the dispatcher checks calls against the interface objects the '
              'exported object declares: parsing somebody else\'s XML must '
              'create or reuse definitions, never rewrite them (C15.D4)')],
-    'C11': [CODEC],
+    'C11': [CODEC,
+            ('c15', lambda r, w, s: r == 'C15.D5' and
+             s.startswith('drops-cached-xml'),
+             'a proxy discovered by introspection is built from the XML the '
+             'exporter serves: every change of the declared members must '
+             'drop the cached document (C15.D5)')],
     'C12': [CODEC],
     'C13': [('c12', lambda r, w, s: s in (
         'registration-key-never-reused', 'returns-registration-key',
